@@ -9,6 +9,6 @@ require (
 	github.com/xuperchain/xupercore v0.0.0
 )
 
-replace github.com/xuperchain/xupercore => /tmp/reseed-C06-14
+replace github.com/xuperchain/xupercore => /repo
 
 replace github.com/hyperledger/burrow => github.com/xuperchain/burrow v0.30.6-0.20210317023017-369050d94f4a
